@@ -55,6 +55,8 @@ OBLIGATIONS = [
     # n-d values (State/StateNdExec.v): per-individual values with a trailing shape, right_broadcasting both ways, refusals
     "C02_nd_select_rows", "C02_nd_weighted_select_rows", "C02_nd_last_axis", "C02_nd_refused_bad_shapes", "C02_nd_refused_by_torch",
     "C02_nd_contract_needs_fit", "C02_nd_contract_is_torch", "C02_nd_contract_keeps_shape", "C02_nd_select_examples",
+    # F_mix proved for the n-d toy vocabulary (multi-parent entry-wise functions, weighted parents): no hypothesis on node functions
+    "C02_partial_revert_nd", "C02_one_sided_weight_refuted",
 ]
 
 HEADER = ("From Coq Require Import ZArith List Bool.\n"
@@ -1426,6 +1428,26 @@ def replay(run: Run, path: str):
     torch.set_num_threads(2)
     d = json.load(open(path))
     inp = d.get("input") or {}
+    if "select" in inp:
+        c = inp["select"]
+        observed, exc, fork_none = T.exec_select(c)
+        print(f"x := {c['old']} (forked); x := {c['cur']}; revert({c['mask']}, right_broadcasting={c['rb']})")
+        print(f"  -> x = {observed}" + (f"   raised {exc}" if exc else "") + f"   _last_fork cleared: {fork_none}")
+        wrong = False
+        if T.select_contract(c["old"], c["cur"], c["mask"], c["rb"]):
+            ref = T.select_reference(c["old"], c["cur"], c["mask"], c["rb"])
+            got = None if observed is None else {k: observed.get(k) for k in ref}
+            print(f"  documented rows: {ref}")
+            wrong = got != ref or not fork_none
+        masked = T.one_sided_trace(c, observed)
+        if masked:
+            print(f"  entries taken from the side WITHOUT weight that now have weight 0 (index paths): {masked}")
+            wrong = True
+        r = run.vm_bad_indices("replay", T.SELECT_HEADER, T.SELECT_CASE_TYPE, [T.select_case_coq(c, observed)], "check_nselect")
+        print("model (nselect_torch / nselect) agrees with the implementation on this call:", r == [])
+        wrong = wrong or bool(r)
+        print("REPLAY", "FAILS" if wrong else "passes")
+        return 1 if wrong else 0
     if "shape" in inp:
         r = shape_case(inp["shape"], inp["mask"])
         print(f"x -> y = 2x+1 -> z = sum(y), values of shape {inp['shape']}, revert(mask={inp['mask']}):", "as expected" if r is None else f"{r[1]}\n expected {r[2]}\n observed {r[3]}")
